@@ -73,14 +73,14 @@ type ccFm struct {
 
 // ccCAS is a model Content Addressable Storage: a table of named objects, a fault plan and a call log.
 type ccCAS struct {
-	mu      sync.Mutex
-	byHash  map[string]*ccObject
-	fmFail  int
-	Fm      []ccFm
-	Gets    []string
-	Opened  int
-	Closed  int
-	Puts    int
+	mu     sync.Mutex
+	byHash map[string]*ccObject
+	fmFail int
+	Fm     []ccFm
+	Gets   []string
+	Opened int
+	Closed int
+	Puts   int
 }
 
 func (c *ccCAS) nameOf(d digest.Digest) string {
@@ -205,7 +205,7 @@ func runCompleteness(id string, cs *ccCase) map[string]any {
 	}
 	acDigest := digest.MustNewDigest("inst", ccFunctions[fnName], map[string]string{
 		"SHA256": "e3b0c44298fc1c149afbf4c8996fb92427ae41e4649b934ca495991b7852b855", "MD5": "d41d8cd98f00b204e9800998ecf8427e",
-		"SHA1": "da39a3ee5e6b4b0d3255bfef95601890afd80709",
+		"SHA1":   "da39a3ee5e6b4b0d3255bfef95601890afd80709",
 		"SHA384": "38b060a751ac96384cd9327eb1b1e36a21fdb71114be07434c0cc7bf63f6e1da274edebfe76f65fbd51ad2f14898b95b",
 		"SHA512": "cf83e1357eefb8bdf1542850d66d8007d620e4050b5715dc83f4a921d36ce9ce47d0d13c5d85f2b0ff8318d2877eec2f63b931bd47417a81a538327af927da3e",
 	}[fnName], 0)
